@@ -5,7 +5,8 @@ CONSTANTS
   Strict = FALSE
   KeepHist = FALSE
   Bug = "none"
-INVARIANT TypeOK ByteString WriteOnlySingle
-PROPERTY Isolation StructuralOpsDontWrite SharedNeverWritten ErrLeavesUnchanged
+  Tolerant = FALSE
+INVARIANT TypeOK ByteString
+PROPERTY Isolation WriteOnlySingle StructuralOpsDontWrite SharedNeverWritten ErrLeavesUnchanged
 POSTCONDITION Accepted
 CHECK_DEADLOCK FALSE
